@@ -457,70 +457,62 @@ func c09AllSuccessors(c *Ctx) {
 			tests := 0
 			good := true
 			why := ""
-			for _, tb := range fn.Blocks {
-				iff, ok := tb.Instrs[len(tb.Instrs)-1].(*ssa.If)
-				if !ok {
-					continue
-				}
-				cond, neg := an.StripNot(iff.Cond)
-				tooNewSide := -1
-				switch x := cond.(type) {
-				case *ssa.Call:
-					f := x.Call.StaticCallee()
-					if f == nil || an.PkgPathOf(f) != "time" || len(x.Call.Args) != 2 {
-						break
-					}
-					usesCutoff := an.Unwrap(x.Call.Args[1]) == ssa.Value(cutoff) || an.Unwrap(x.Call.Args[0]) == ssa.Value(cutoff)
-					if !usesCutoff {
-						break
-					}
-					recvIsCutoff := an.Unwrap(x.Call.Args[0]) == ssa.Value(cutoff)
-					switch f.Name() {
-					case "After": // created.After(cutoff): too new when true
-						tooNewSide = 0
-						if recvIsCutoff {
-							tooNewSide = 1
-						}
-					case "Before": // created.Before(cutoff): too new when false
-						tooNewSide = 1
-						if recvIsCutoff {
-							tooNewSide = 0
-						}
-					}
-				case *ssa.BinOp:
-					// childRoot.Created == nil: unknown age counts as too new
-					if x.Op == token.EQL || x.Op == token.NEQ {
-						var tested ssa.Value
-						if an.IsNilConst(x.Y) {
-							tested = x.X
-						} else if an.IsNilConst(x.X) {
-							tested = x.Y
-						}
-						if tested != nil {
-							if f := an.FieldOfLoad(tested); f != nil && f.Name() == "Created" {
-								tooNewSide = 0
-								if x.Op == token.NEQ {
-									tooNewSide = 1
-								}
-							}
-						}
-					}
-				}
-				if tooNewSide < 0 {
-					continue
-				}
-				if neg {
-					tooNewSide = 1 - tooNewSide
-				}
+			for _, at := range ageTests(fn, cutoff) {
+				tb := at.b
 				// only tests inside the loop over this parent's children (dominated by the outer header)
 				if outerH == nil || !an.ReachableFromBlock(tb, b, nil) {
 					continue
 				}
 				tests++
-				if an.ReachableWithFacts(tb, tb.Succs[tooNewSide], b, stop, nil) {
+				if an.ReachableWithFacts(tb, tb.Succs[at.tooNewSide], b, stop, nil) {
 					good = false
-					why = fmt.Sprintf("from the outcome 'a successor is newer than the cutoff (or of unknown age)' at %s the candidate store is still reachable in the same iteration: a version is treated as history although a version that superseded it is not covered by the cutoff", c.P.Pos(iff.Cond.Pos()))
+					why = fmt.Sprintf("from the outcome 'a successor is newer than the cutoff (or of unknown age)' at %s the candidate store is still reachable in the same iteration: a version is treated as history although a version that superseded it is not covered by the cutoff", c.P.Pos(at.pos))
 				}
+			}
+			if tests == 0 {
+				// the test sits in a boolean helper: "if allOldEnough(children, cutoff) { candidates[parent] = children }"
+				an.GuardedByValue(an.Edge{From: b}, func(v ssa.Value) bool {
+					cl, ok := v.(*ssa.Call)
+					if !ok {
+						return false
+					}
+					h := cl.Call.StaticCallee()
+					if h == nil || len(h.Blocks) == 0 || an.PkgPathOf(h) != kvPkg {
+						return false
+					}
+					var hc *ssa.Parameter
+					getsChildren := false
+					for ai, a := range cl.Call.Args {
+						if an.Unwrap(a) == ssa.Value(cutoff) && ai < len(h.Params) {
+							hc = h.Params[ai]
+						}
+						if rangeOfNext(a) == kr {
+							getsChildren = true
+						}
+					}
+					if hc == nil || !getsChildren {
+						return false
+					}
+					// in the helper no "too new" outcome reaches a 'return true'
+					var trues []*ssa.BasicBlock
+					for _, hb := range h.Blocks {
+						if ret, ok := hb.Instrs[len(hb.Instrs)-1].(*ssa.Return); ok && len(ret.Results) == 1 {
+							if cb, isC := constBool(ret.Results[0]); !isC || cb {
+								trues = append(trues, hb)
+							}
+						}
+					}
+					for _, at := range ageTests(h, hc) {
+						tests++
+						for _, tb := range trues {
+							if an.ReachableWithFacts(at.b, at.b.Succs[at.tooNewSide], tb, nil, nil) {
+								good = false
+								why = fmt.Sprintf("in %s the outcome 'a successor is newer than the cutoff' at %s can still lead to 'return true'", core.FuncName(h), c.P.Pos(at.pos))
+							}
+						}
+					}
+					return true
+				}, true)
 			}
 			if tests == 0 {
 				good, why = false, "no comparison of a successor's creation time with the cutoff guards the candidate store"
@@ -531,6 +523,76 @@ func c09AllSuccessors(c *Ctx) {
 	if n == 0 {
 		c.R.Unk(rule, name+": candidate selection", c.P.Pos(fn.Pos()), "no store into the candidate map keyed by the range over getDependents' result")
 	}
+}
+
+type ageTest struct {
+	b          *ssa.BasicBlock
+	tooNewSide int
+	pos        token.Pos
+}
+
+// ageTests finds the branches of fn that compare a creation time with the cutoff (After / Before) or
+// test a Created field for nil, with the successor index of the "too new / unknown age" outcome.
+func ageTests(fn *ssa.Function, cutoff *ssa.Parameter) []ageTest {
+	var out []ageTest
+	for _, tb := range fn.Blocks {
+		iff, ok := tb.Instrs[len(tb.Instrs)-1].(*ssa.If)
+		if !ok {
+			continue
+		}
+		cond, neg := an.StripNot(iff.Cond)
+		tooNewSide := -1
+		switch x := cond.(type) {
+		case *ssa.Call:
+			f := x.Call.StaticCallee()
+			if f == nil || an.PkgPathOf(f) != "time" || len(x.Call.Args) != 2 {
+				break
+			}
+			usesCutoff := an.Unwrap(x.Call.Args[1]) == ssa.Value(cutoff) || an.Unwrap(x.Call.Args[0]) == ssa.Value(cutoff)
+			if !usesCutoff {
+				break
+			}
+			recvIsCutoff := an.Unwrap(x.Call.Args[0]) == ssa.Value(cutoff)
+			switch f.Name() {
+			case "After": // created.After(cutoff): too new when true
+				tooNewSide = 0
+				if recvIsCutoff {
+					tooNewSide = 1
+				}
+			case "Before": // created.Before(cutoff): too new when false
+				tooNewSide = 1
+				if recvIsCutoff {
+					tooNewSide = 0
+				}
+			}
+		case *ssa.BinOp:
+			// childRoot.Created == nil: unknown age counts as too new
+			if x.Op == token.EQL || x.Op == token.NEQ {
+				var tested ssa.Value
+				if an.IsNilConst(x.Y) {
+					tested = x.X
+				} else if an.IsNilConst(x.X) {
+					tested = x.Y
+				}
+				if tested != nil {
+					if f := an.FieldOfLoad(tested); f != nil && f.Name() == "Created" {
+						tooNewSide = 0
+						if x.Op == token.NEQ {
+							tooNewSide = 1
+						}
+					}
+				}
+			}
+		}
+		if tooNewSide < 0 {
+			continue
+		}
+		if neg {
+			tooNewSide = 1 - tooNewSide
+		}
+		out = append(out, ageTest{tb, tooNewSide, iff.Cond.Pos()})
+	}
+	return out
 }
 
 // loopHeaderOf2 returns the next enclosing loop header of a loop header h.
